@@ -62,6 +62,8 @@ struct Cfg {
     /// 5, 6: the reader has its own put for the same key in flight (started after the crash,
     /// 30 ms / 100 ms before the lookup); 7: plain, on a network made a full mesh first
     variant: usize,
+    /// the put and the lookups go through the blocking `Dht` API
+    sync: bool,
 }
 
 fn id_class(i: usize) -> Id20 {
@@ -228,6 +230,7 @@ struct Out {
 /// (None = only measure how many there are).
 fn scenario(cfg: &Cfg, chooser: Chooser, faults: bool, crash_index: Option<usize>, track: bool) -> (Chooser, Out) {
     let mut net = build(cfg, chooser, track);
+    net.w.sync_api = cfg.sync;
     let n = cfg.s + cfg.c;
     let writer = net.nodes[cfg.writer];
     let reader = net.nodes[cfg.reader];
@@ -351,7 +354,7 @@ fn scenario(cfg: &Cfg, chooser: Chooser, faults: bool, crash_index: Option<usize
 }
 
 fn cfg_json(c: &Cfg) -> Value {
-    json!({"s": c.s, "c": c.c, "perm": c.perm, "writer": c.writer, "reader": c.reader, "kind": c.kind, "public": c.public, "variant": c.variant})
+    json!({"s": c.s, "c": c.c, "perm": c.perm, "writer": c.writer, "reader": c.reader, "kind": c.kind, "public": c.public, "variant": c.variant, "sync": c.sync})
 }
 
 fn record(c: &Cfg, crash: Option<usize>, choices: &[u32], o: &Out, out: &mut Partial) {
@@ -364,15 +367,18 @@ fn record(c: &Cfg, crash: Option<usize>, choices: &[u32], o: &Out, out: &mut Par
     }
     if crash.is_some() && o.problems.is_empty() {
         out.add("values_found", 1);
+        if c.sync {
+            out.add("values_found_through_blocking_api", 1);
+        }
     }
     out.gauge_max("max_ackers", o.ackers as u64);
     out.outcomes.insert(format!("s{}c{}:{}:v{}:ackers{}:sets{}:ok{}", c.s, c.c, KINDS[c.kind], c.variant, o.ackers.min(4), o.crash_sets.min(9), o.problems.is_empty()));
     for (k, d) in &o.problems {
         // the in-flight-lookup history is one finding per data kind, whatever the shape
-        let key = if c.variant == 1 && k.starts_with("value-not-found") { k.clone() } else { format!("{k}/s{}c{}/{}", c.s, c.c, if c.public { "public" } else { "private" }) };
+        let key = if c.variant == 1 && k.starts_with("value-not-found") { k.clone() } else { format!("{k}/s{}c{}/{}{}", c.s, c.c, if c.public { "public" } else { "private" }, if c.sync { "/blocking-api" } else { "" }) };
         out.violation(
             key,
-            format!("S={} C={} join order #{} writer #{} reader #{} kind {} plan {}: {d}{}", c.s, c.c, c.perm, c.writer, c.reader, KINDS[c.kind], if c.public { "public" } else { "private" }, if choices.iter().any(|x| *x > 0) { format!(" [latency deviations {choices:?}]") } else { String::new() }),
+            format!("{}S={} C={} join order #{} writer #{} reader #{} kind {} plan {}: {d}{}", if c.sync { "[blocking Dht API] " } else { "" }, c.s, c.c, c.perm, c.writer, c.reader, KINDS[c.kind], if c.public { "public" } else { "private" }, if choices.iter().any(|x| *x > 0) { format!(" [latency deviations {choices:?}]") } else { String::new() }),
             json!({"cfg": cfg_json(c), "crash": crash, "choices": choices}),
         );
     }
@@ -408,7 +414,11 @@ fn run(tier: Tier, shard: usize, nshards: usize, _seed: u64) -> Partial {
                                     if variant >= 2 && (perm > 0 || !public) {
                                         continue;
                                     }
-                                    cfgs.push(Cfg { s, c, perm, writer, reader, kind, public, variant });
+                                    cfgs.push(Cfg { s, c, perm, writer, reader, kind, public, variant, sync: false });
+                                    // the same through the blocking API (first join order, public plan)
+                                    if perm == 0 && public && matches!(variant, 0 | 3 | 5) {
+                                        cfgs.push(Cfg { s, c, perm, writer, reader, kind, public, variant, sync: true });
+                                    }
                                 }
                             }
                         }
@@ -418,7 +428,7 @@ fn run(tier: Tier, shard: usize, nshards: usize, _seed: u64) -> Partial {
         }
     }
     if shard == 0 {
-        let c = Cfg { s: 3, c: 1, perm: 2, writer: 3, reader: 1, kind: 2, public: true, variant: 0 };
+        let c = Cfg { s: 3, c: 1, perm: 2, writer: 3, reader: 1, kind: 2, public: true, variant: 0, sync: false };
         let (_, a) = scenario(&c, Chooser::default_run(), false, Some(0), true);
         let (_, b) = scenario(&c, Chooser::default_run(), false, Some(0), true);
         assert!(a.steps == b.steps && a.digests.len() == b.digests.len() && a.ackers == b.ackers, "MACHINERY: scenario is not deterministic");
@@ -443,7 +453,7 @@ fn run(tier: Tier, shard: usize, nshards: usize, _seed: u64) -> Partial {
             if bi % nshards != shard {
                 continue;
             }
-            let cfg = Cfg { s: *s, c: *c, perm: 0, writer: if *c > 0 { *s } else { 3 }, reader: 7, kind: *kind, public: bi % 2 == 0, variant: 7 };
+            let cfg = Cfg { s: *s, c: *c, perm: 0, writer: if *c > 0 { *s } else { 3 }, reader: 7, kind: *kind, public: bi % 2 == 0, variant: 7, sync: false };
             let (_, o) = scenario(&cfg, Chooser::default_run(), false, Some(0), false);
             record(&cfg, Some(0), &[], &o, &mut out);
         }
@@ -471,7 +481,7 @@ fn run(tier: Tier, shard: usize, nshards: usize, _seed: u64) -> Partial {
                 if (bi * 7 + kind) % nshards != shard {
                     continue;
                 }
-                let cfg = Cfg { s: *s, c: *c, perm: 0, writer: if *c > 0 { *s + 1 } else { 3 }, reader: if *c > 0 { *s + 2 } else { 7 }, kind, public: kind % 2 == 0, variant: 0 };
+                let cfg = Cfg { s: *s, c: *c, perm: 0, writer: if *c > 0 { *s + 1 } else { 3 }, reader: if *c > 0 { *s + 2 } else { 7 }, kind, public: kind % 2 == 0, variant: 0, sync: false };
                 let (_, o) = scenario(&cfg, Chooser::default_run(), false, Some(0), false);
                 record(&cfg, Some(0), &[], &o, &mut out);
             }
@@ -494,6 +504,7 @@ fn replay(v: &Value) -> Result<Option<Violation>, String> {
         kind: g("kind").ok_or("kind")?,
         public: c.get("public").and_then(|x| x.as_bool()).unwrap_or(true),
         variant: g("variant").unwrap_or(0),
+        sync: c.get("sync").and_then(|x| x.as_bool()).unwrap_or(false),
     };
     let crash = v.get("crash").and_then(|x| x.as_u64()).map(|x| x as usize);
     let choices: Vec<u32> = v.get("choices").and_then(|c| c.as_array()).map(|a| a.iter().filter_map(|x| x.as_u64().map(|x| x as u32)).collect()).unwrap_or_default();
